@@ -435,6 +435,11 @@ def main(argv):
             results = [f.result() for f in futs]
             if kfut:
                 kani_results = kfut.result()
+                # a failed [carrier] clause leaves the verdict to the paired bounded harnesses: give them their larger bounds at once
+                carrier_failed = any(fl.get("strength") == "carrier" for r in results for fl in r.get("failures", []))
+                if carrier_failed and args.tier == "quick" and not any(kr.get("failures") for kr in kani_results):
+                    log("NOTE: a carrier clause failed: running the paired Kani harnesses at their thorough bounds as well")
+                    kani_results = kani_results + kani_runner.run_kani_units(kani_units, prop, args.repo, work, seed, "escalate")
     finally:
         if not args.keep:
             shutil.rmtree(work, ignore_errors=True)
